@@ -55,6 +55,9 @@ pub struct Observed {
     pub injected: Vec<Injected>,
     pub calls: Vec<Call>,
     pub timed_out: bool,
+    /// false when real pipes fed the run: the kernel decides how reads are
+    /// chunked, so the call sequence (not the behaviour) may differ between runs
+    pub log_stable: bool,
 }
 
 impl Observed {
@@ -65,7 +68,9 @@ impl Observed {
         d.u64(self.signal.map(|x| x as u64 + 1).unwrap_or(0));
         d.bytes(&self.stdout);
         d.bytes(&mask_stderr(&self.stderr));
-        d.str(&self.log);
+        if self.log_stable {
+            d.str(&self.log);
+        }
         for (p, n) in &self.after {
             d.str(p);
             match n {
@@ -310,5 +315,6 @@ pub fn run(env: &Env, spec: &RunSpec) -> Observed {
         injected,
         calls,
         timed_out,
+        log_stable: !spec.stdin_pipe && spec.fifos.is_empty(),
     }
 }
